@@ -62,6 +62,17 @@ def run_gen():
     return rc == 0, out.strip()
 
 
+def gen_failed_files(out):
+    """Gen/*.v files the translator could not regenerate (they are stale), from gen.py's GEN-FAILED lines"""
+    bad = {}
+    for l in out.splitlines():
+        m = re.match(r"GEN-FAILED (\S+): (.*)", l)
+        if m:
+            for f in m.group(1).split(","):
+                bad["Gen/" + f] = m.group(2)
+    return bad
+
+
 # ------------------------------------------------------------------ Coq
 def coq_files():
     files = []
@@ -320,9 +331,18 @@ class Check:
             return self._prove(module, theorems)
 
     def _prove(self, module, theorems):
-        self.gen_ok, gen_out = run_gen()
+        gen_all_ok, gen_out = run_gen()
         log(gen_out)
         modules = [module] if isinstance(module, str) else list(module)
+        # a translator failure concerns this property only if a stale Gen file is in the dependency closure of its theorems
+        stale = gen_failed_files(gen_out)
+        closure = set()
+        for m in modules:
+            closure.update(coq_deps(m + ".v"))
+        mine = {f: w for f, w in stale.items() if f in closure}
+        self.gen_ok = gen_all_ok or (bool(stale) and not mine)
+        if mine:
+            gen_out = "; ".join("%s is stale: %s" % (f, w) for f, w in sorted(mine.items()))
         vos = [m + ".vo" for m in modules]
         vo = " ".join(vos)
         ok, out = coq_make(vos + ["Extract.vo"])
